@@ -201,5 +201,10 @@ func ValidIdentifier(s string) bool {
 	// is easiest to do with our existing scanner-related infrastructure here
 	// and nobody should be validating identifiers in a tight loop.
 	tokens := scanTokens([]byte(s), "", hcl.Pos{}, scanIdentOnly)
+	if len(tokens) == 2 && tokens[0].Type == TokenIdent && len(tokens[0].Bytes) != len(s) {
+		// The scanner silently skips a leading byte order mark, which is not
+		// part of any identifier.
+		return false
+	}
 	return len(tokens) == 2 && tokens[0].Type == TokenIdent && tokens[1].Type == TokenEOF
 }
